@@ -1033,7 +1033,10 @@ def clear_config(clear_constants=False):
     saved_constants = _CONSTANTS.copy()
     _CONSTANTS.clear()  # Clear then redefine constants (re-adding bindings).
     for name, value in saved_constants.items():
-      constant(name, value)
+      # Restore directly rather than through `constant()`: its duplicate check
+      # would reject constants with overlapping names that were legitimately
+      # defined in interactive mode, aborting the clear half way.
+      _CONSTANTS[name] = value
   _IMPORTS.clear()
   with _OPERATIVE_CONFIG_LOCK:
     _OPERATIVE_CONFIG.clear()
